@@ -8,7 +8,7 @@ from ..interp import Interp, Depth, SEQS
 from ..table import Tracer
 from ..resolve import Resolver
 from ..own import ReadOnly
-from ..escape import Escape, rule_entry, justified_table, dead_by_domain, enclosing_if
+from ..escape import Escape, rule_entry, justified_table, dead_by_domain, enclosing_if, implied_at
 from ..rules import canon_guard, canon_text, equiv, equiv_folded
 from .. import common, spec, flow
 from . import c06
@@ -106,7 +106,9 @@ def script_justified(repo, it):
                     gt = canon_guard(g.test, repo, f.module) if g is not None else ''
                     base = re.sub(r'^CScriptOp\((\w+)\)$', r'\1', recv)
                     if not (gt == '%s.is_small_int()' % recv or ('%s > 80' % base in gt and '%s < 97' % base in gt)):
-                        sites_ok = False
+                        # any spelling / nesting of the guard: the path condition at the call must imply it
+                        if not (implied_at(repo, f, c, '%s.is_small_int()' % recv) is True or implied_at(repo, f, c, '80 < %s < 97' % base) is True):
+                            sites_ok = False
         return (id(e.node) not in reached) and sites_ok and n > 0, 'every call site is guarded by is_small_int() or OP_1 <= op <= OP_16 (%d site(s)); domain %d opcodes' % (n, len(small))
     just[('bitcoin.core.script.CScriptOp.decode_op_n', "ValueError('op %r is not an OP_N'")] = decode_guard
     # RIPEMD-160 round function selector: called with rnd and 4 - rnd, rnd = j >> 4 for j in range(80)
